@@ -577,7 +577,7 @@ package scipipe
 //@   ensures not-in-place: forall p string :: effCreated[p] && !old(effCreated)[p] ==> !isFinal(t, p)
 
 //@ func (*Task).Execute(t)
-//@   props C01 C02 C03 C05 C06 C09
+//@   props C01 C02 C03 C05 C06 C07 C09
 //@   requires wf: wfTask(t) && t.Process != nil && t.InIPs != nil
 //@   onspawn modifies execSpawned
 //@   onspawn ensures counted: execSpawned == old(execSpawned) + 1
@@ -590,7 +590,8 @@ package scipipe
 //@   ensures returns-only-if-no-leftover-temp-dir[C03]: statNotExist(old(fsEpoch), tmpDirOf(t))
 //@   atsend never-done-with-leftover-temp-dir[C03]: statNotExist(old(fsEpoch), tmpDirOf(t))
 //@   ensures done-sent[C02,C05]: chanSentN(t.Done) == old(chanSentN(t.Done)) + 1
-//@   ensures slots-balanced[C06]: held(t.workflow) == old(held(t.workflow))
+// (a slot that is not given back is lost for the rest of the run: later tasks that would fit wait forever, C07)
+//@   ensures slots-balanced[C06,C07]: held(t.workflow) == old(held(t.workflow))
 //@   ensures skipped-or-finalized[C05,C09]: old(anyOutExists(t)) || (cmdSucceeded(t) && allRenamed(t))
 // Known finding F2: a task with several outputs whose earlier run was killed between two of its renames is skipped on
 // the next run (some output exists) although another output is still missing: the restart does not converge.
